@@ -171,6 +171,33 @@ Theorem C10_recreate : forall af tags s1 sched,
 Proof. exact recreate_exact. Qed.
 Print Assumptions C10_recreate.
 
+(* The same over the variant flag of recreate_v: do the positions of the deleted pipe reach the pipe created later under
+   its name? (The model has no state file; the flag is what the file contributes, see model/PipeSync.v.) *)
+Definition C10_recreate_statement (survives : bool) : Prop :=
+  forall tags s1 sched, quiescent s1 = true -> Forall enq_in_order sched ->
+    let s := run true tags (recreate_v survives s1) sched in
+    alive s = true -> quiescent s = true -> dst s = expected tags (length (log s1)) (log s).
+
+(* the code (ppipe.saveState refuses to save for a deleted pipe: what onDeleteStream removed stays removed) *)
+Theorem C10_recreate_code : C10_recreate_statement code_state_survives_delete.
+Proof. intros tags s1 sched Hq Ho. exact (recreate_exact true tags s1 sched Hq (or_introl eq_refl) Ho). Qed.
+Print Assumptions C10_recreate_code.
+
+(* the code before that repair, when a worker of the deleted pipe saved its position after the removal: a pipe copies
+   a, b (Pos = 2), is deleted, c is written while no pipe of the name exists, the pipe is created again and loads
+   Pos = 2, d is written: it copies c and d. Replayed on the implementation by the corpus scenario corpus-held-delete
+   (worker held at the top of saveState while DELETE PIPE runs). *)
+Theorem C10_recreate_stale_refuted : ~ C10_recreate_statement true.
+Proof.
+  intros H.
+  pose (e := fun n : Z => {| e_ts := n; e_msg := [x6d]; e_flds := []; e_keep := true |}).
+  pose (s1 := run true [] (init [] 0) (sched_write [e 1%Z; e 2%Z] ++ [LDelete] ++ sched_write [e 3%Z] ++ [LWork; LWork])).
+  specialize (H [] s1 (sched_write [e 4%Z])).
+  assert (Ho : Forall enq_in_order (sched_write [e 4%Z])) by (repeat constructor).
+  vm_compute in H. specialize (H eq_refl Ho eq_refl eq_refl). discriminate H.
+Qed.
+Print Assumptions C10_recreate_stale_refuted.
+
 (* ---- non-vacuity ---- *)
 Definition ev (n : Z) (k : bool) : event := {| e_ts := n; e_msg := [x6d]; e_flds := [([x66], [x31])]; e_keep := k |}.
 Definition demo_tags : list (bytes * bytes) := [([x61], [x62])].
